@@ -19,9 +19,14 @@ func (fg *FnGen) step(fr *Frame, b *ssa.BasicBlock, ins ssa.Instruction, st *Sta
 	switch x := ins.(type) {
 	case *ssa.DebugRef:
 		// source-level names of locals (GlobalDebug): usable in postconditions of the top frame
-		if fr.top && !x.IsAddr && x.Object() != nil {
+		if fr.top && x.Object() != nil {
 			if _, isVar := x.Object().(*types.Var); isVar {
-				fr.noteLocal(b, x.Object().Name(), fg.val(fr, x.X), x.X.Type())
+				if x.IsAddr {
+					// the variable lives in a heap cell (captured by a closure / address taken): remember the address
+					fr.noteLocal(b, "&"+x.Object().Name(), fg.val(fr, x.X), x.X.Type())
+				} else {
+					fr.noteLocal(b, x.Object().Name(), fg.val(fr, x.X), x.X.Type())
+				}
 			}
 		}
 		return st
